@@ -26,6 +26,26 @@ abbrev M := Except Err
 @[inline] def wr (out : Array Nat) (cap : Nat) (v : Nat) : M (Array Nat) :=
   if out.size < cap then pure (out.push v) else throw (.oobWrite out.size cap)
 
+/-! ## primitives of the REGENERATED kernels (`Gen/KernelsGen.lean`, written by tools/translate_pyx.py)
+
+There the result buffer keeps its allocated size and `result_len` is an ordinary integer, exactly as in the source. -/
+
+/-- `numpy.empty(n, dtype=uint32)`: n words of unspecified content (`junk`) -/
+def numpyEmpty (n : Nat) (junk : Nat → Nat) : Array Nat := Array.ofFn (n := n) (fun i => junk i.val)
+
+/-- `a - b` on C ints that the model keeps in N: going below zero is an error (a negative index is out of bounds) -/
+@[inline] def csub (a b : Nat) : M Nat :=
+  if b ≤ a then pure (a - b) else throw (.value "integer below zero")
+
+/-- `view[i] = v`, checked -/
+@[inline] def wrAt (buf : Array Nat) (i v : Nat) : M (Array Nat) :=
+  if i < buf.size then pure (buf.setIfInBounds i v) else throw (.oobWrite i buf.size)
+
+/-- `buf[:n] = src` (NumPy raises unless the two have the same length) -/
+def sliceAssign (buf : Array Nat) (n : Nat) (src : Array Nat) : M (Array Nat) :=
+  if n ≤ buf.size ∧ src.size = n then pure (src ++ buf.extract n buf.size)
+  else throw (.value "slice assignment: shapes differ")
+
 /-! ## structural merges (refinement targets) -/
 
 def inter : List Nat → List Nat → List Nat
